@@ -20,11 +20,21 @@ Definition blob_equiv (a b : mblob) : Prop :=
 (* inputs in the range of the Rust types (i64 key / value, 32-byte hash) *)
 Definition in_range (k v : N) (h : bytes) : Prop := k < 2 ^ 64 /\ v < 2 ^ 64 /\ length h = HASH_BYTES.
 Definition op_in_range (o : op) : Prop :=
-  match o with OInsert k v h _ | OUpsert k v h => in_range k v h | _ => True end.
+  match o with
+  | OInsert k v h _ | OUpsert k v h => in_range k v h
+  | OBatch items => Forall (fun it : item => in_range (fst (fst it)) (snd (fst it)) (snd it)) items
+  | _ => True
+  end.
 Definition is_idu (o : op) : bool :=
   match o with OInsert _ _ _ _ | ODelete _ | OUpsert _ _ _ => true | _ => false end.
 (* room for two more blocks: TreeIndex is u32 and the model does not wrap *)
 Definition room (s : mblob) : Prop := N.of_nat (length (blocks s)) + 2 <= 2 ^ 32.
+(* a batch of n items allocates at most 2 n + 2 blocks *)
+Definition room_for (o : op) (s : mblob) : Prop :=
+  match o with
+  | OBatch items => N.of_nat (length (blocks s)) + 2 * N.of_nat (length items) + 2 <= 2 ^ 32
+  | _ => room s
+  end.
 
 Section SpecH.
   Variable H : bytes -> bytes.
@@ -37,19 +47,9 @@ Section SpecH.
     let '(ok1, ot1) := step1 H t ot in
     stops x = false /\ is_ok x = ok1 /\ Abs H s' ot1 /\ (ok1 = false -> s' = s).
 
-  (* every batch_insert of the history is one the plain map rejects at that point (a key or hash already
-     present or twice in the batch): the accepted batch is the one operation whose L2 -> L1 lemma is open *)
-  Fixpoint rejected_batches (ops : list op) (s : mblob) (m : kvmap) : Prop :=
-    match ops with
-    | [] => True
-    | o :: r =>
-        (match o with OBatch items => m_batch items m = None | _ => True end) /\
-        rejected_batches r (snd (step2 H o s)) (snd (step0 (op_to_top s o) m))
-    end.
-
   (* before every operation of the history the blob has room *)
   Fixpoint rooms (ops : list op) (s : mblob) : Prop :=
-    match ops with [] => True | o :: r => room s /\ rooms r (snd (step2 H o s)) end.
+    match ops with [] => True | o :: r => room_for o s /\ rooms r (snd (step2 H o s)) end.
 
   Definition good_state (s : mblob) (m : kvmap) : Prop :=
     content_is s m /\
